@@ -421,6 +421,18 @@ func runC03(p *engine.Prog, r *engine.Report) {
 						extra = append(extra, g)
 					}
 				}
+				// a condition spread over alternative paths (load compared one way when a limit is set, another way when not)
+				// is no literal of the path condition: look at what reaching the delete depends on, over all branch conditions
+				if v := fi.ViewAll(j2a, nil); v != nil && len(extra) == 0 {
+					for _, a := range v.Atoms() {
+						if allowed(a) || strings.HasPrefix(a, "eq0(") && strings.Contains(a, ".option.") {
+							continue
+						}
+						if v.DependsOn(site.blk, a) {
+							extra = append(extra, "depends on "+a)
+						}
+					}
+				}
 				r.Check(len(extra) == 0, "R3.3-handover-exact", fmt.Sprintf("hand-over delete#%d in %s", nH, engine.FuncName(fn)), "removal of the in-transfer copy at "+c.at(del),
 					"no condition beyond: discovered, both scrape counts reached, distinct non-nil in-sync holder, own in-transfer, other normal", "additional necessary conditions: "+strings.Join(extra, " ∧ "))
 			}
